@@ -499,6 +499,10 @@ class Evaluator:
                 if isinstance(b, RaiseV):
                     out.append((b, c2))
                     continue
+                if isinstance(op, (ast.Is, ast.IsNot)) and (a is None or b is None):
+                    same = a is None and b is None
+                    out.append((same if isinstance(op, ast.Is) else not same, c2))
+                    continue
                 if not _sym(a) and not _sym(b):
                     import operator
                     f = {ast.Eq: operator.eq, ast.NotEq: operator.ne, ast.Lt: operator.lt, ast.LtE: operator.le,
